@@ -223,6 +223,225 @@ def norm_ns(ns):
     return ns[:q] if q != -1 else ns
 
 
+# ---------------------------------------------------------------- object reuse: no state survives between operations
+#
+# The statement quantifies over packets, not over Packet objects: every encode() of a packet yields the frames the
+# wire format prescribes for its (type, nsp, id, data), however often and in whatever way the object was used before
+# (encoded already, born from `encoded_packet=`, filled by add_attachment(), other packets encoded in between).  The
+# Lean model is a pure function, so a sequence of operations on one object is judged operation by operation against
+# the same pure answer (Spec.frame for the oracle, encode for the correspondence; C01.encode_is_spec equates them).
+
+def MP():
+    from socketio import msgpack_packet
+    return msgpack_packet
+
+
+def gen_reuse_case(rng):
+    """A well-formed packet, biased towards binary payloads (bytes at any depth)."""
+    while True:
+        kw, wf = gen_packet(rng)
+        if not wf:
+            continue
+        if kw['packet_type'] in (2, 3) and kw['binary'] is not False and not G.has_bytes(kw['data']) \
+                and rng.random() < 0.6:
+            extra = G.gen_bytes(rng) if rng.random() < 0.5 else [G.gen_value(rng, 2, 0.6), G.gen_bytes(rng)]
+            d = list(kw['data'])
+            d.insert(rng.randint(1 if kw['packet_type'] == 2 else 0, len(d)), extra)
+            kw['data'] = d
+        return kw
+
+
+def gen_reuse_script(rng):
+    birth = 'wire' if rng.random() < 0.25 else 'new'
+    return [birth] + [rng.choice(['enc', 'enc', 'enc', 'relay', 'other']) for _ in range(rng.randint(1, 4))] + ['enc']
+
+
+def _frames(e):
+    if isinstance(e, list):
+        return {'text': e[0], 'atts': list(e[1:])}
+    return {'text': e, 'atts': None}
+
+
+def _same_frames(f, w):
+    # (a text frame alone and a text frame with zero attachments differ only by the packet type, which is in the text)
+    return f['text'] == w['text'] and (f['atts'] or []) == (w['atts'] or [])
+
+
+def _show(f):
+    if isinstance(f, (bytes, bytearray)):
+        return f.hex()
+    return repr(f['text']) + ('' if f.get('atts') is None else ' + %r' % [a.hex() for a in f['atts']])
+
+
+def run_reuse(sc):
+    """Executes one reuse scenario on the real class.  -> (problems, trace); stops at the first problem."""
+    import copy
+    msgpack_cls = sc['cls'] == 'MsgPackPacket'
+    cls = MP().MsgPackPacket if msgpack_cls else P().Packet
+    kw = sc['case']
+    ident_ns = kw['namespace']
+    want = sc['expect']
+    problems, trace = [], []
+    obj, last, first_bytes = None, None, None
+
+    def make(k):
+        return cls(packet_type=k['packet_type'], data=copy.deepcopy(k['data']), namespace=k['namespace'],
+                   id=k['id'], binary=k['binary'])
+
+    def fields_ok(o, w):
+        if msgpack_cls:
+            return o.packet_type == w['type'] and o.namespace == ident_ns and o.id == kw['id'] \
+                and C.same(o.data, kw['data'])
+        return o.packet_type == w['type'] and norm_ns(o.namespace) == norm_ns(ident_ns) and o.id == kw['id'] \
+            and C.same(o.data, kw['data'])
+
+    def decode(src):
+        if msgpack_cls:
+            return cls(encoded_packet=src), True
+        o = cls(encoded_packet=src['text'])
+        atts = src['atts'] or []
+        answers = [o.add_attachment(a) for a in atts]
+        return o, (answers == [False] * (len(atts) - 1) + ([True] if atts else []) and o.attachment_count == len(atts))
+
+    def judge_encoding(e, w):
+        """is `e` what the wire format prescribes for the packet whose prescription is `w`?"""
+        if msgpack_cls:
+            import msgpack
+            if not isinstance(e, bytes):
+                return False
+            d = msgpack.loads(e)
+            keys = {'type', 'data', 'nsp'} | ({'id'} if w['id'] is not None else set())
+            return isinstance(d, dict) and set(d) == keys and d['type'] == w['type'] and d['nsp'] == w['nsp'] \
+                and d.get('id') == w['id'] and C.same(d['data'], w['data'])
+        return _same_frames(_frames(e), w)
+
+    for i, op in enumerate(sc['script']):
+        try:
+            if op == 'new':
+                obj, last = make(kw), None
+                trace.append('%d new      %s(%r)' % (i, cls.__name__, kw))
+            elif op in ('wire', 'relay'):
+                # born from frames: the prescribed ones, or the ones this very object produced last (a relay)
+                src = last if (op == 'relay' and last is not None) else (
+                    sc['expect_bytes'] if msgpack_cls else sc['expect'])
+                obj, answers_ok = decode(src)
+                last, first_bytes = None, None
+                if not msgpack_cls:
+                    want = sc['expect_norm']
+                trace.append('%d %-8s %s(encoded_packet=..)+add_attachment of %s -> type=%r nsp=%r id=%r data=%r' % (
+                    i, op, cls.__name__, _show(src), obj.packet_type, obj.namespace, obj.id, obj.data))
+                if not answers_ok or not fields_ok(obj, want):
+                    problems.append({'step': i, 'op': op, 'what': 'decoding the frames does not give the packet back',
+                                     'got': repr((obj.packet_type, obj.namespace, obj.id, obj.data))})
+            elif op == 'enc':
+                e = obj.encode()
+                got = e if msgpack_cls else _frames(e)
+                ok = judge_encoding(e, want)
+                trace.append('%d encode   -> %s%s' % (i, _show(got), '' if ok else '      <-- prescribed: %s' % (
+                    repr(want) if msgpack_cls else _show(want))))
+                if not ok:
+                    problems.append({'step': i, 'op': op, 'what': 'encode() of a used object is not the prescribed frame',
+                                     'got': _show(got), 'want': repr(want) if msgpack_cls else _show(want)})
+                elif msgpack_cls and first_bytes is not None and e != first_bytes:
+                    problems.append({'step': i, 'op': op, 'what': 'two encodings of one object differ',
+                                     'got': e.hex(), 'want': first_bytes.hex()})
+                elif not fields_ok(obj, want):
+                    problems.append({'step': i, 'op': op, 'what': 'encode() changed the packet it encodes',
+                                     'got': repr((obj.packet_type, obj.namespace, obj.id, obj.data))})
+                last = got
+                if msgpack_cls and first_bytes is None:
+                    first_bytes = e
+            elif op == 'other':
+                # an unrelated packet goes through the codec in between (class-level / shared accumulators)
+                if sc.get('other') is None:
+                    continue
+                e = make(sc['other']).encode()
+                ok = True if msgpack_cls else _same_frames(_frames(e), sc['expect_other'])
+                trace.append('%d other    %r -> %s' % (i, sc['other'], _show(e if msgpack_cls else _frames(e))))
+                if not ok:
+                    problems.append({'step': i, 'op': op, 'what': 'encode() of a fresh packet after other packets '
+                                     'went through the codec is not the prescribed frame',
+                                     'got': _show(_frames(e)), 'want': _show(sc['expect_other'])})
+        except Exception as ex:      # noqa
+            trace.append('%d %-8s raised %r' % (i, op, ex))
+            problems.append({'step': i, 'op': op, 'what': 'operation on a well-formed packet raised', 'got': repr(ex)})
+        if problems:
+            break
+    return problems, trace
+
+
+def reuse_section(ctx):
+    rng = ctx.rng
+    n = ctx.scale(700, 10000)
+    rcases = [gen_reuse_case(rng) for _ in range(n)]
+    ops = []
+    for kw in rcases:
+        ops += [spec_op(kw), enc_op(kw), spec_op(dict(kw, namespace=norm_ns(kw['namespace'])))]
+    ans = C.batch('codec', ops)
+    usable = []
+    stats = {'scenarios': 0, 'encodes': 0, 'binary_reencoded': 0, 'relays': 0, 'msgpack_scenarios': 0}
+    samples = []
+    for i, kw in enumerate(rcases):
+        spec, model, specn = (model_encode_view(a) for a in ans[3 * i: 3 * i + 3])
+        if 'exc' in spec or 'exc' in specn:
+            ctx.count('reuse.skipped_not_encodable')       # bytes outside EVENT/ACK: judged in the encode section
+            continue
+        if 'exc' in model or model['type'] != spec['type'] or not _same_frames(model, spec):
+            ctx.violation('correspondence', 'model encode and Spec.frame differ (C01.encode_is_spec no longer tied)',
+                          {'case': repr(kw), 'model': repr(model), 'spec': repr(spec)}, no_input=True)
+        script = gen_reuse_script(rng)
+        other = rng.choice(usable) if usable and 'other' in script else None
+        usable.append((kw, spec))
+        sc = {'cls': 'Packet', 'case': kw, 'script': script, 'expect': spec, 'expect_norm': specn,
+              'other': other and other[0], 'expect_other': other and other[1]}
+        problems, trace = run_reuse(sc)
+        stats['scenarios'] += 1
+        stats['encodes'] += script.count('enc')
+        stats['relays'] += script.count('relay') + script.count('wire')
+        ctx.count('reuse.birth.' + script[0])
+        for op in script[1:]:
+            ctx.count('reuse.step.' + op)
+        # the situation hidden state needs: a second operation on an object that holds attachments
+        if spec['atts'] and (script.count('enc') >= 2 or script[0] == 'wire' or 'relay' in script):
+            stats['binary_reencoded'] += 1
+            if len(samples) < 3:
+                samples.append({'packet': repr(kw), 'script': script, 'trace': trace})
+        if problems:
+            ctx.violation('oracle', problems[0]['what'] + ' (step %d of %r): got %s, prescribed %s' % (
+                problems[0]['step'], script, problems[0].get('got'), problems[0].get('want')),
+                {'reuse': sc, 'problem': problems[0], 'trace': trace})
+    # ---- the msgpack packet class: same statement, wire format = one msgpack map {type, data, nsp[, id]}
+    import msgpack
+    musable = []
+    for _ in range(ctx.scale(250, 3000)):
+        kw = gen_reuse_case(rng)
+        if kw['id'] is not None and kw['id'] >= 2 ** 64:
+            kw['id'] %= 2 ** 63                          # msgpack integers are 64 bit
+        wire = {'type': kw['packet_type'], 'data': kw['data'], 'nsp': kw['namespace'], 'id': kw['id']}
+        script = gen_reuse_script(rng)
+        sc = {'cls': 'MsgPackPacket', 'case': kw, 'script': script, 'expect': wire,
+              'expect_bytes': msgpack.packb({k: v for k, v in wire.items() if k != 'id' or v is not None}),
+              'other': rng.choice(musable) if musable else None}      # (64-bit ids only)
+        musable.append(kw)
+        problems, trace = run_reuse(sc)
+        stats['msgpack_scenarios'] += 1
+        ctx.count('reuse.msgpack.birth.' + script[0])
+        if problems:
+            ctx.violation('oracle', 'MsgPackPacket: ' + problems[0]['what'] + ' (step %d of %r): got %s, prescribed %s'
+                          % (problems[0]['step'], script, problems[0].get('got'), problems[0].get('want')),
+                          {'reuse': sc, 'problem': problems[0], 'trace': trace})
+    ctx.coverage.update({'object_reuse_scenarios': stats['scenarios'], 'object_reuse_encodes': stats['encodes'],
+                         'object_reuse_binary_reencoded': stats['binary_reencoded'],
+                         'object_reuse_decode_then_encode': stats['relays'],
+                         'object_reuse_msgpack_scenarios': stats['msgpack_scenarios'],
+                         'object_reuse_rule': 'one Packet object taken through new|from-wire, then encode / relay '
+                         '(decode own frames + add_attachment) / unrelated packet in between, ending in encode; every '
+                         'encode compared with Spec.frame of the packet (normalised namespace after a decode); '
+                         'binary_reencoded = scenarios where an object holding attachments is operated on again',
+                         'object_reuse_samples': samples})
+    return stats['scenarios'] + stats['msgpack_scenarios']
+
+
 def run(ctx):
     C.proof_step(ctx, ['Python json.dumps/json.loads on the value domain: compared character by character '
                        'with the Lean printer J.dumps on every encode case; loads enters the model as a '
@@ -303,6 +522,9 @@ def run(ctx):
         if len(samples) < 4 and atts and kw['id'] is not None:
             samples.append({'packet': repr(kw), 'text': real['text'], 'attachments': [a.hex() for a in atts]})
 
+    # ---- object reuse: every encode() of a used object is still the prescribed frame
+    evals += reuse_section(ctx)
+
     # ---- decode correspondence: encoded frames (with all hand-back variants), mutations, noise
     drv = C.Driver('codec')
     ndec = 0
@@ -381,5 +603,16 @@ def run(ctx):
 
 
 def replay(ctx, r):
+    rep = r.get('replay', r)
+    if isinstance(rep, dict) and isinstance(rep.get('reuse'), dict):
+        sc = C.unjsonable(rep['reuse'])
+        print('%s %r, script %r' % (sc['cls'], sc['case'], sc['script']))
+        problems, trace = run_reuse(sc)
+        for line in trace:
+            print('  ' + line)
+        for p in problems:
+            print('  step %d (%s): %s' % (p['step'], p['op'], p['what']))
+        print('oracle verdict :', 'VIOLATED' if problems else 'holds')
+        return 1 if problems else 0
     print(json.dumps(r, indent=1))
     return 0
